@@ -11,7 +11,9 @@ def run_translator(harness, sub, outfile, args=()):
     return C.write_if_changed(os.path.join(C.COQ, "Gen", outfile), out)
 
 
-REGISTRY = []   # (sub, outfile, args)
+REGISTRY = [
+    ("gen-ngapschema", "NgapSchema.v", ()),
+]   # (sub, outfile, args)
 
 
 def regen_all(harness):
